@@ -324,7 +324,7 @@ func runProtocol(kc *kernelCtx, blocks []*Block, only string, want map[string]bo
 		if on("C09") || on("C14") || on("C16") || onPlug {
 			pc.p1Context(s)
 		}
-		if on("C12") || onPlug {
+		if on("C12") || on("C16") || onPlug {
 			pc.p3Frame(s)
 		}
 		if on("C03") || on("C14") || onPlug {
@@ -368,6 +368,9 @@ func runProtocol(kc *kernelCtx, blocks []*Block, only string, want map[string]bo
 	}
 	if on("C18") {
 		pc.p8Twins(only)
+	}
+	if on("C09") || on("C19") {
+		pc.p1CtxKeys(only)
 	}
 	if on("C08") || on("C05") || on("C02") {
 		pc.p7NoTryLock(only)
